@@ -161,6 +161,22 @@ def jsonable(x, depth=0):
 
 
 def run(mod, tier, nproc=None):
+    """one scratch directory per run: every temporary file of the workers lives under it and goes with it (pool workers leave through
+    os._exit, so nothing they register with atexit is ever run)"""
+    import shutil
+    import tempfile
+
+    scratch = tempfile.mkdtemp(prefix="mcf_run_")
+    old = tempfile.tempdir
+    tempfile.tempdir = scratch
+    try:
+        return _run(mod, tier, nproc)
+    finally:
+        tempfile.tempdir = old
+        shutil.rmtree(scratch, ignore_errors=True)
+
+
+def _run(mod, tier, nproc=None):
     t0 = time.time()
     prop_id = mod.ID
     seed = int(os.environ.get("VERIF_SEED", "0") or 0)
